@@ -1097,3 +1097,12 @@ V('c05-refresh-never-shortens', 'C05', 'C05.OWN', DNS,
 V('c10-refresh-never-shortens', 'C10', 'C10.CONST', DNS,
   "        self.set_created_ttl(other.created, other.ttl)",
   "        if other.get_expiration_time(100) >= self.get_expiration_time(100):\n            self.set_created_ttl(other.created, other.ttl)", names=['reset_ttl'])
+
+# ---------------------------------------------------------------- round 10: listener snapshot kept across the two phases
+RMF = '_handlers/record_manager.py'
+V('c06-complete-phase-reuses-first-snapshot', 'C06', 'C06.SNAPSHOT', RMF,
+  "        for listener in self.listeners.copy():\n            listener.async_update_records_complete()",
+  "        listeners = getattr(self, '_notified', None) or self.listeners.copy()\n        for listener in listeners:\n            listener.async_update_records_complete()", names=['async_updates_complete'])
+V('c06-twin-snapshot-in-a-local', 'C06', 'C06.SNAPSHOT', RMF,
+  "        for listener in self.listeners.copy():\n            listener.async_update_records_complete()",
+  "        listeners = self.listeners.copy()\n        for listener in listeners:\n            listener.async_update_records_complete()", expect='silent')
